@@ -339,3 +339,7 @@ def replay(run, payload):
     elif meta:
         judge(run, scn, meta, res)
         engine.run_monitors(run, 'refuse-monitor', [('refuse', 'b1' if meta['ow'] else 'b0', o, {'scenario': scn})], 'refuse monitor rejects', 'move-onto-existing')
+    if not meta or meta.get('twice') or meta.get('nested') or meta.get('foreign'):
+        # the refuse monitor (Coq) over the recorded trace, for the cases that carry no table meta
+        ow = '--overwrite' in (scn['steps'][0].get('argv') or [])
+        engine.run_monitors(run, 'refuse-monitor', [('refuse', 'b1' if ow else 'b0', o, {'scenario': scn})], 'refuse monitor rejects', 'move-onto-existing')
